@@ -260,8 +260,50 @@ func OnceValues[T1, T2 any](f func() (T1, T2)) func() (T1, T2) {
 	return func() (T1, T2) { o.Do(func() { v1, v2 = f() }); return v1, v2 }
 }
 
-// Map is sync.Map with a deterministic Range.
+// Map is sync.Map with a deterministic Range; every access is a scheduling
+// point, so that check-then-act sequences over a map (Load followed by Store)
+// can be interleaved by the scheduler.
 type Map struct{ sync.Map }
+
+func (m *Map) Load(key any) (any, bool) {
+	simrt.Yield("map.Load")
+	return m.Map.Load(key)
+}
+
+func (m *Map) Store(key, value any) {
+	simrt.Yield("map.Store")
+	m.Map.Store(key, value)
+}
+
+func (m *Map) LoadOrStore(key, value any) (any, bool) {
+	simrt.Yield("map.LoadOrStore")
+	return m.Map.LoadOrStore(key, value)
+}
+
+func (m *Map) LoadAndDelete(key any) (any, bool) {
+	simrt.Yield("map.LoadAndDelete")
+	return m.Map.LoadAndDelete(key)
+}
+
+func (m *Map) Delete(key any) {
+	simrt.Yield("map.Delete")
+	m.Map.Delete(key)
+}
+
+func (m *Map) Swap(key, value any) (any, bool) {
+	simrt.Yield("map.Swap")
+	return m.Map.Swap(key, value)
+}
+
+func (m *Map) CompareAndSwap(key, old, new any) bool {
+	simrt.Yield("map.CompareAndSwap")
+	return m.Map.CompareAndSwap(key, old, new)
+}
+
+func (m *Map) CompareAndDelete(key, old any) bool {
+	simrt.Yield("map.CompareAndDelete")
+	return m.Map.CompareAndDelete(key, old)
+}
 
 func (m *Map) Range(f func(key, value any) bool) {
 	var keys []any
